@@ -247,7 +247,10 @@ fn behaviour_via(text: &str, sigs: &[Sig], script: &[Step], max_rows: usize, via
         StaticObs::NotStatic(_) => vec![(0, "not static".into())],
         other => vec![(0, format!("{other:?}"))],
     };
-    Behaviour { verdict: format!("accepted ({})", obs.init.brief()), stat, dynamic, log: obs.log }
+    // the signals the rows point to are part of the rows: a declared signal carries its expression,
+    // which is the same expression under every layout (compared through Display and Debug)
+    let sig_text: Vec<String> = tc.signals.iter().map(|s| format!("{s} / {s:?}")).collect();
+    Behaviour { verdict: format!("accepted ({}) signals {}", obs.init.brief(), sig_text.join("; ")), stat, dynamic, log: obs.log }
 }
 
 /// Compare the behaviour of every rewriting in `layouts` (index 0 = no deviation, skipped) with the canonical layout
